@@ -148,12 +148,36 @@ func runC13(p *core.Prog, r *core.Report, tier string) {
 						lv = bo.X
 					}
 					call, ok := lv.(*ssa.Call)
+					format := ""
+					var fpos token.Pos
 					if !ok || call.Call.StaticCallee() == nil || call.Call.StaticCallee().Name() != "Sprintf" {
-						r.Violate("C13.a", construct, p.Pos(ci.Pos()), "the compiled specifier is not built from a constant format: "+ds.D(lf.V).String())
-						continue
+						// the same built by concatenation: "^" + wallet + "/" + account + "$" reads as the format ^%s/%s$
+						var flat func(v ssa.Value) (string, bool)
+						flat = func(v ssa.Value) (string, bool) {
+							if cs, isC := constString(v); isC {
+								return strings.ReplaceAll(cs, "%", "%%"), true
+							}
+							if bo, isAdd := v.(*ssa.BinOp); isAdd && bo.Op == token.ADD {
+								a, ok1 := flat(bo.X)
+								b, ok2 := flat(bo.Y)
+								return a + b, ok1 && ok2
+							}
+							if bt, isB := v.Type().Underlying().(*types.Basic); isB && bt.Info()&types.IsString != 0 {
+								return "%s", true
+							}
+							return "", false
+						}
+						ff, okF := flat(lf.V)
+						if _, isAdd := lf.V.(*ssa.BinOp); !isAdd || !okF || !strings.Contains(ff, "%s") {
+							r.Violate("C13.a", construct, p.Pos(ci.Pos()), "the compiled specifier is not built from a constant format: "+ds.D(lf.V).String())
+							continue
+						}
+						format, fpos = ff, ci.Pos()
+					} else {
+						format, _ = constString(call.Call.Args[0])
+						format += tail
+						fpos = call.Pos()
 					}
-					format, _ := constString(call.Call.Args[0])
-					format += tail
 					okStart := strings.HasPrefix(format, "^")
 					okJoin := strings.Contains(format, "%s/%s")
 					okEnd := strings.HasSuffix(format, "$")
@@ -172,7 +196,7 @@ func runC13(p *core.Prog, r *core.Report, tier string) {
 						})
 						okEnd = w == nil
 					}
-					r.Check(okStart && okJoin && okEnd, "C13.a", construct, p.Pos(call.Pos()), fmt.Sprintf("format %q is anchored at both ends and joins wallet/account", format),
+					r.Check(okStart && okJoin && okEnd, "C13.a", construct, p.Pos(fpos), fmt.Sprintf("format %q is anchored at both ends and joins wallet/account", format),
 						fmt.Sprintf("the specifier format %q is not anchored at both ends (a configured name would also admit longer account or wallet names)", format))
 				}
 			}
